@@ -26,6 +26,7 @@ func scenReplayMP(rep *Report, tier string, seed int64) {
 	g := NewGen(seed, 6, 0)
 	s := Setup{Acts: replayActs(), AvgPeriod: 8, SyncVersion: mainnetSyncVersion}
 	tip := uint32(290)
+	tolerateRefDiff = true
 	ref, ok := buildReference(rep, s, g, dir, s.Acts.Pegnet+1, tip, func(w *World, h uint32) *BlockSpec {
 		a := s.Acts
 		b := &BlockSpec{Height: h, Time: BlockTime(h)}
